@@ -20,6 +20,26 @@ def run_property(prop: str, repo: Path, tier: str, seed: int, write_evidence: bo
     except ModuleNotFoundError:
         print(f"ANALYSIS-ERROR property={prop} rule=driver no rule module for this property")
         return 2
+    # the analysis of one property takes about a second; a budget turns a run-away fixpoint on unforeseen code into an honest refusal
+    # (exit 2) instead of a check that never answers
+    import signal
+    import threading
+    budget = int(os.environ.get("PGSTAT_BUDGET_S", "120"))
+    armed = False
+    try:          # and a ceiling on the address space: a summary that explodes ends as MemoryError (-> exit 2), not as a machine out of memory
+        import resource
+        soft, hard = resource.getrlimit(resource.RLIMIT_AS)
+        cap = int(os.environ.get("PGSTAT_MEM_GB", "8")) << 30
+        if soft == resource.RLIM_INFINITY or soft > cap:
+            resource.setrlimit(resource.RLIMIT_AS, (cap, hard))
+    except Exception:
+        pass
+    if threading.current_thread() is threading.main_thread() and hasattr(signal, "SIGALRM"):
+        def _over(signum, frame):
+            raise AnalysisError("driver", f"analysis budget of {budget}s exceeded: the analyser does not terminate in reasonable time on this source (not a verdict on the repository)")
+        signal.signal(signal.SIGALRM, _over)
+        signal.alarm(budget)
+        armed = True
     try:
         ctx = Ctx(prop, repo, tier)
         ctx.quiet = quiet
@@ -35,6 +55,9 @@ def run_property(prop: str, repo: Path, tier: str, seed: int, write_evidence: bo
         check_module_effects(ctx)
         check_class_state(ctx)
         check_njit_options(ctx)
+        if armed:
+            signal.alarm(0)
+            armed = False
         from .rules.support import check_reachable_support
         check_reachable_support(ctx)
         extra = {}
@@ -66,9 +89,13 @@ def run_property(prop: str, repo: Path, tier: str, seed: int, write_evidence: bo
                       f"{extra['selfval']['skipped']} skipped")
         return finish(ctx, seed, evidence, extra)
     except AnalysisError as e:
+        if armed:
+            signal.alarm(0)
         print(f"ANALYSIS-ERROR property={prop} rule={e.rule} {e.msg}")
         return 2
     except Exception:
+        if armed:
+            signal.alarm(0)
         traceback.print_exc()
         print(f"ANALYSIS-ERROR property={prop} rule=driver internal error of the analyser (not a verdict on the repository)")
         return 2
